@@ -315,8 +315,10 @@ class Image:
 
         if time is None:
             # From date
+            # NOTE: Without a reference date (e.g. for images whose date has been set
+            # after their construction) no relative time can be derived.
             if self.series:
-                if self._is_none(self.date):
+                if self._is_none(self.date) or self.reference_date is None:
                     self.time = self.time_num * [None]
                 else:
                     self.time = [
@@ -324,7 +326,7 @@ class Image:
                         for i in range(self.time_num)
                     ]
             else:
-                if self._is_none(self.date):
+                if self._is_none(self.date) or self.reference_date is None:
                     self.time = None
                 else:
                     self.time = (self.date - self.reference_date).total_seconds()
@@ -1798,7 +1800,8 @@ class OpticalImage(Image):
         self.color_space = kwargs.get("color_space", "RGB").upper()
         """Color space of the trichromatic data space."""
 
-        if self.color_space not in ["RGB", "BGR", "HSV"]:
+        # NOTE: All color spaces which can be reached via to_trichromatic are valid.
+        if self.color_space not in ["RGB", "BGR", "HSV", "HLS", "LAB"]:
             raise NotImplementedError
 
         if "color_space" not in kwargs:
